@@ -878,6 +878,9 @@ func gen(a Args, out *Out) {
 		nstream, nlen, nsweep = 6000, 1500, 60000
 	}
 	emit := func(kind string, in Sx) {
+		if !Focus(kind) {
+			return
+		}
 		if in.At(0).Int64() == 1 && in.Len() == 7 {
 			// how the stream is read back: ReadPacket, or ReadHeadBody + UnmarshalPacket
 			in = ListOf(append(append([]Sx(nil), in.L...), Int(int64(rng.Intn(6)))))
